@@ -1,14 +1,45 @@
 (* C11 - Captured data is exactly the encoding of the values advanced over.
    Statements only; every proof is `exact <lemma>` from Proofs/ContentP.v.
 
-   The closure `op` is universally quantified. "p" is what it advanced over
-   (rem s = p ++ rem s1).  The end-of-contents exclusion does NOT hold for
-   closures that read until absent inside an indefinite value (known finding
-   D18, exhibited below by C11_eoc_included_refuted and reported by the check
-   as KNOWN-FINDING); later decode / decode_partial / re-encoding of captured
-   data are decided by the c11.prog correspondence and its oracle. *)
+   For ANY closure: the captured octets are precisely what it advanced over
+   and decoding continues right after them (C11_capture_exact). Through the
+   grammar of C02 (Proofs/CaptureP.v), for every input, mode, context, limit:
+     C11_capture_one - capture_one captures exactly one well-formed encoding
+       of a value, nothing of what follows, and leaves the parent unchanged;
+     C11_capture_all - capture_all captures exactly the concatenated
+       encodings of the remaining values of a definite-length or top-level
+       value; inside an INDEFINITE-length value it also consumes and captures
+       the enclosing end-of-contents - the statement says so explicitly: this
+       is known finding D18 (C11_eoc_included_refuted is the witness; the
+       check reports it as KNOWN-FINDING);
+     C11_captured_decodes - decoding captured octets of a value later yields
+       that very value (the tree decoding in place delivers), consuming all.
+   By streams only: decode_partial partitions, re-encoding of a Captured. *)
 Require Import BV.Model.Base BV.Model.SrcB BV.Model.Length BV.Model.Tag BV.Model.Content.
-Require Import BV.Proofs.SrcBP BV.Proofs.TagP BV.Proofs.ContentP.
+Require Import BV.Proofs.SrcBP BV.Proofs.TagP BV.Proofs.ContentP BV.Proofs.GrammarP BV.Proofs.CaptureP.
+
+Theorem C11_capture_one : forall fuel c s b c' s',
+  nf s -> octets_ok (rem s) = true ->
+  capture_one fuel c s = (Ok (b, c'), s') ->
+  c' = c /\ exists t, GrammarP.enc (cmd c) t b /\ rem s = b ++ rem s' /\
+                      lim s' = lim_sub (lim s) (len b) /\ lim_ge (lim s) (len b).
+Proof. exact capture_one_exact. Qed.
+
+Theorem C11_capture_all : forall fuel c s b c' s',
+  nf s -> octets_ok (rem s) = true ->
+  capture_all fuel c s = (Ok (b, c'), s') ->
+  exists ts ds, encs (cmd c) ts ds /\ rem s = b ++ rem s' /\
+    match cst c with
+    | Indefinite => exists lw0, b = ds ++ 0 :: lw0 /\ lenoct (cmd c) 0 lw0
+    | _ => b = ds
+    end.
+Proof. exact capture_all_exact. Qed.
+
+Theorem C11_captured_decodes : forall m t b fuel,
+  GrammarP.enc m t b -> octets_ok b = true -> (length b < fuel)%nat ->
+  decode_src m (read_all fuel) (pure_src b None) = (Ok [t], pure_src [] None).
+Proof. exact captured_value_decodes. Qed.
+
 
 (* precisely the octets advanced over, and decoding continues right after
    them with the enclosing limit reduced by exactly that amount *)
@@ -37,6 +68,9 @@ Example C11_ex_capture_one :
   = Ok ([2;1;5], mkCons Unbounded Der).
 Proof. vm_compute. reflexivity. Qed.
 
+Print Assumptions C11_capture_one.
+Print Assumptions C11_capture_all.
+Print Assumptions C11_captured_decodes.
 Print Assumptions C11_capture_exact.
 Print Assumptions C11_capture_propagates_error.
 Print Assumptions C11_eoc_included_refuted.
